@@ -53,6 +53,18 @@ impl Transport for SmtpTransport {
     fn send_raw(&self, envelope: &Envelope, email: &[u8]) -> Result<Self::Ok, Self::Error> {
         let mut conn = self.inner.connection()?;
 
+        #[cfg(lettre_verif)]
+        let result = match conn.send(envelope, email) {
+            Ok(result) => {
+                crate::verif_hooks::pool_probe("send_ok", conn.server_info().name());
+                result
+            }
+            Err(err) => {
+                crate::verif_hooks::pool_probe("send_err", conn.server_info().name());
+                return Err(err);
+            }
+        };
+        #[cfg(not(lettre_verif))]
         let result = conn.send(envelope, email)?;
 
         #[cfg(not(feature = "pool"))]
